@@ -76,6 +76,41 @@ func (p *Peer) Tree() DiscMsg {
 	return m
 }
 
+// TreeVariant: a later discovery reply that may omit entities (they are removed), the node
+// management feature (it is kept), or carry a defective entry (empty entity address: rejected).
+// Entity [0] is always listed (see the assumption on in-place address completion in props/C01.json).
+func (p *Peer) TreeVariant(r *hx.Rng) DiscMsg {
+	full := p.Tree()
+	m := DiscMsg{Dev: full.Dev}
+	dropEnt := map[string]bool{}
+	for _, e := range full.Ents[1:] {
+		if r.Chance(1, 3) {
+			dropEnt[ekey(e.Addr)] = true
+		}
+	}
+	for _, e := range full.Ents {
+		if !dropEnt[ekey(e.Addr)] {
+			m.Ents = append(m.Ents, e)
+		}
+	}
+	dropNM := r.Chance(1, 4)
+	for _, f := range full.Feats {
+		if dropEnt[ekey(f.Ent)] || (dropNM && len(f.Ent) == 1 && f.Ent[0] == 0 && f.Id == 0) {
+			continue
+		}
+		m.Feats = append(m.Feats, f)
+	}
+	if r.Chance(1, 5) {
+		e := []int64{3}
+		m.Ents = append(m.Ents, DiscEnt{Addr: e})
+		m.Feats = append(m.Feats, DiscFeat{Ent: e, Id: 1, Type: dataTypes[r.Intn(len(dataTypes))], Role: int64(r.Pick(5, 3, 2))})
+	}
+	if r.Chance(1, 10) {
+		m.Ents = append(m.Ents, DiscEnt{}) // no entity address
+	}
+	return m
+}
+
 // Announce: connect and deliver the discovery reply (from the node management feature,
 // whose device address is not known yet).
 func (p *Peer) Announce() []hx.Zs {
@@ -260,7 +295,7 @@ func (pl *Plan) Datagram(r *hx.Rng, p *Peer, refs []int64) Dgram {
 		} else {
 			d.Pl.Msg = DiscMsg{Dev: p.Dev()}
 			if d.Cls == 1 {
-				d.Pl.Msg = p.Tree() // a reply re-announces the whole tree (entity [0] included)
+				d.Pl.Msg = p.TreeVariant(r)
 			}
 		}
 	case 2:
@@ -289,6 +324,23 @@ func (pl *Plan) partialNotify(r *hx.Rng, p *Peer) DiscMsg {
 		m.Ents = []DiscEnt{{Addr: e}} // no state
 	case 3:
 		m.Ents = []DiscEnt{{Addr: e, State: int64(r.Range(1, 2)), Dev: 7}} // another device
+	}
+	// further entries, handled one by one: mixed additions and removals, the device information
+	// entity (cannot be removed), an entry without entity address
+	for r.Chance(1, 3) && len(m.Ents) < 4 {
+		e2 := []int64{int64(r.Range(0, 3))}
+		switch r.Pick(3, 3, 1) {
+		case 0:
+			m.Ents = append(m.Ents, DiscEnt{Addr: e2, State: 1})
+			m.Feats = append(m.Feats, DiscFeat{Ent: e2, Id: 1, Type: dataTypes[r.Intn(len(dataTypes))], Role: int64(r.Pick(5, 3, 2))})
+			if e2[0] == 0 && r.Bool() {
+				m.Feats = append(m.Feats, DiscFeat{Ent: e2, Id: 0, Type: 5, Role: 2})
+			}
+		case 1:
+			m.Ents = append(m.Ents, DiscEnt{Addr: e2, State: 2})
+		default:
+			m.Ents = append(m.Ents, DiscEnt{State: int64(r.Range(1, 2))})
+		}
 	}
 	return m
 }
@@ -387,47 +439,48 @@ func MatrixHistory(t, role int64, full bool) []hx.Zs {
 			for _, ack := range []bool{false, true} {
 				for _, known := range []bool{true, false} {
 					for _, ann := range []bool{true, false} {
-						n++
-						p := peers[n%2]
-						d := Dgram{Ctr: p.Next(), Ack: ack, Cls: cls, Pl: pl}
-						d.Src = p.Addr(p.Feats[0], n%3 != 0)
-						if t == 5 && n%4 < 2 {
-							d.Src = p.Addr(nmFeat, true)
-						}
-						if !ann {
-							d.Src = FAddr{Dev: p.Dev(), Ent: e, Feat: 10}
-						}
-						d.Dst = target.Addr(int64(n/2) % 2)
-						if !known {
-							d.Dst = FAddr{Dev: int64(n/2) % 2, Ent: []int64{7}, Feat: 8}
-						}
-						if cls == 5 {
-							d.Result = true
-							d.Err = int64(n % 3)
-							d.Ref = int64(n%2) * 4
-						} else {
-							switch pl.Kind {
-							case 0, 2:
-								if cls != 0 {
-									d.Pl.V = int64(200 + n%700)
+						for _, p := range peers { // peer 1 is bound and subscribed, peer 2 is not
+							n++
+							d := Dgram{Ctr: p.Next(), Ack: ack, Cls: cls, Pl: pl}
+							d.Src = p.Addr(p.Feats[0], n%3 != 0)
+							if t == 5 && n%4 < 2 {
+								d.Src = p.Addr(nmFeat, true)
+							}
+							if !ann {
+								d.Src = FAddr{Dev: p.Dev(), Ent: e, Feat: 10}
+							}
+							d.Dst = target.Addr(int64(n/2) % 2)
+							if !known {
+								d.Dst = FAddr{Dev: int64(n/2) % 2, Ent: []int64{7}, Feat: 8}
+							}
+							if cls == 5 {
+								d.Result = true
+								d.Err = int64(n % 3)
+								d.Ref = int64(n%2) * 4
+							} else {
+								switch pl.Kind {
+								case 0, 2:
+									if cls != 0 {
+										d.Pl.V = int64(200 + n%700)
+									}
+								case 1:
+									d.Pl.Msg = DiscMsg{Dev: p.Dev()}
+									if cls == 1 {
+										d.Pl.Msg = p.Tree()
+									} else if cls == 2 {
+										d.Pl.Msg.Ents = []DiscEnt{{Addr: []int64{4}, State: int64(1 + n%2)}}
+									}
+								case 3, 4, 5, 6:
+									d.Pl.Call = call(p)
 								}
-							case 1:
-								d.Pl.Msg = DiscMsg{Dev: p.Dev()}
 								if cls == 1 {
-									d.Pl.Msg = p.Tree()
-								} else if cls == 2 {
-									d.Pl.Msg.Ents = []DiscEnt{{Addr: []int64{4}, State: int64(1 + n%2)}}
+									d.Ref = 3
 								}
-							case 3, 4, 5, 6:
-								d.Pl.Call = call(p)
 							}
-							if cls == 1 {
-								d.Ref = 3
+							h = append(h, OpInbound(p.Ski, d))
+							if cls == 3 && known && pl.Kind == 0 && t != 5 {
+								h = append(h, OpGetData(e, 1, pl.Fn))
 							}
-						}
-						h = append(h, OpInbound(p.Ski, d))
-						if cls == 3 && known && pl.Kind == 0 && t != 5 {
-							h = append(h, OpGetData(e, 1, pl.Fn))
 						}
 					}
 				}
@@ -501,6 +554,103 @@ func Random(r *hx.Rng, tier string, cbWeight int) []hx.Zs {
 				f := pl.Locals[r.Intn(len(pl.Locals))]
 				h = append(h, OpGetData(f.Ent, f.Id, pickFn(r, &f, RFeat{Type: f.Type})))
 			}
+		}
+	}
+	return h
+}
+
+// CallbackHistory: registrations of several callbacks per counter on several features (node
+// management, DeviceClassification, client and server features, a feature that does not exist),
+// duplicates, result callbacks, interleaved with replies and results from several peers carrying
+// matching, non-matching, repeated and missing references, accepted and rejected replies.
+func CallbackHistory(r *hx.Rng, tier string) []hx.Zs {
+	pl := GenPlan(r)
+	h := append([]hx.Zs{}, pl.Prefix...)
+	h = append(h, pl.ConnectAll()...)
+	targets := []LFeat{NMLocal, {Ent: []int64{0}, Id: 1, Type: 6, Role: 1}}
+	for _, f := range pl.Locals {
+		targets = append(targets, f)
+	}
+	targets = targets[:min(len(targets), 2+r.Range(1, 3))]
+	ctrs := []int64{1, 2, 3, 4, 5, 6}[:r.Range(2, 6)]
+	register := func() {
+		t := targets[r.Intn(len(targets))]
+		if r.Chance(1, 12) {
+			t = LFeat{Ent: []int64{int64(r.Range(1, 4))}, Id: int64(r.Range(6, 9))} // no such feature
+		}
+		if r.Chance(1, 5) {
+			h = append(h, OpAddResultCb(t.Ent, t.Id, int64(r.Intn(NCallbacks))))
+		} else {
+			h = append(h, OpAddRespCb(t.Ent, t.Id, ctrs[r.Intn(len(ctrs))], int64(r.Intn(5))))
+		}
+	}
+	deliver := func() {
+		p := pl.Peers[r.Intn(len(pl.Peers))]
+		t := targets[r.Intn(len(targets))]
+		src, rf := pl.remoteAddr(r, p)
+		d := Dgram{Src: src, Dst: t.Addr(int64(r.Intn(2))), Ctr: p.Next(), Ack: r.Chance(1, 4)}
+		if r.Chance(1, 10) {
+			d.Dst, _ = pl.localAddr(r)
+		}
+		switch r.Pick(12, 2, 2) {
+		case 0:
+			d.Ref = ctrs[r.Intn(len(ctrs))] + 1
+		case 1:
+			d.Ref = int64(r.Range(7, 12)) + 1 // nobody waits for it
+		}
+		if r.Chance(2, 5) {
+			d.Result = true
+			d.Err = int64(r.Pick(3, 1, 1)) * int64(r.Range(1, 4)) % 8
+			h = append(h, OpInbound(p.Ski, d))
+			return
+		}
+		d.Cls = 1
+		if r.Chance(1, 8) {
+			d.Cls = int64(r.Pick(1, 0, 2, 1, 1)) // another classifier: no callback
+		}
+		if t.Type == 5 && t.Id == 0 && len(t.Ent) == 1 && t.Ent[0] == 0 {
+			d.Pl.Kind = int64(r.Pick(1, 3, 4, 0, 0, 0, 0, 0, 0, 1))
+		}
+		switch d.Pl.Kind {
+		case 0:
+			// mostly a function the sending feature's type carries (accepted), sometimes not (rejected)
+			fns := FnsOfType(rf.Type)
+			if len(fns) > 0 && rf.Type != 5 && r.Chance(3, 4) {
+				d.Pl.Fn = fns[r.Intn(len(fns))]
+			} else {
+				d.Pl.Fn = int64(r.Range(11, NFns))
+			}
+			d.Pl.V = int64(r.Range(1, 900))
+		case 1:
+			d.Pl.Msg = p.Tree()
+			if d.Cls == 2 {
+				d.Pl.Msg = pl.partialNotify(r, p)
+			}
+		case 2:
+			d.Pl.V = int64(r.Range(1, 900))
+		}
+		h = append(h, OpInbound(p.Ski, d))
+	}
+	for k := 0; k < r.Range(3, 10); k++ {
+		register()
+	}
+	n := r.Range(10, 40)
+	if tier == "thorough" {
+		n = r.Range(10, 100)
+	}
+	for k := 0; k < n; k++ {
+		switch r.Pick(10, 5, 1, 1) {
+		case 0:
+			deliver()
+		case 1:
+			register()
+		case 2:
+			p := pl.Peers[r.Intn(len(pl.Peers))]
+			h = append(h, OpDisconnect(p.Ski))
+			h = append(h, p.Announce()...)
+		default:
+			p := pl.Peers[r.Intn(len(pl.Peers))]
+			h = append(h, OpInbound(p.Ski, pl.Datagram(r, p, ctrs)))
 		}
 	}
 	return h
